@@ -426,6 +426,9 @@ def judgeHist (lhs rhs : Tok) : String :=
       let pairs := pairUp tnats
       let pool : Nat → Tr := fun k => match pairs[k]? with | some (s, d) => ⟨canon s, canon d⟩ | none => ⟨0, 0⟩
       let callSecs := secs.filter (·.head? == some "call")
+      -- transformers whose two definitions denote the same CRS after the constructors' defaults
+      let sameKs : List Nat := secs.filterMap fun s =>
+        match s with | ["tsame", k, "1"] => k.toNat? | _ => none
       let anyHop := calls.any fun (k, _, _) => needsHop heap0 (pool k).src (pool k).dst
       let anyAxis := recs.any fun r => r.sr.axis != enu
       let base := "hist" ++ (if anyHop then "-hop" else "-nohop") ++ (if anyAxis then "-axis" else "") ++
@@ -444,8 +447,11 @@ def judgeHist (lhs rhs : Tok) : String :=
             let diff := diff <|> (if tagsOK tagBefore recs st.heap then none
               else some s!"DIFF {base} SR-state-differs-from-model before-call={i} tags={tagBefore}")
             if built != fbuilt && lateKs.contains k && (built == "nil" || fbuilt == "nil") && (built == "ok" || fbuilt == "ok") then
-              -- NewTransform's nil-if-Equal answer flipped after a constructor ran (noted, outside the property)
-              go st cs' ss' (i+1) anyErr ncalled diff
+              -- NewTransform's nil-if-Equal answer flipped after a constructor ran.  Between two definitions of
+              -- the SAME CRS (equal once defaults are applied) nil and non-nil are both the identity: skipped.
+              -- Between different CRSs a nil (identity) answer that depends on earlier use is history dependence.
+              if sameKs.contains k then go st cs' ss' (i+1) anyErr ncalled diff
+              else s!"SPEC {base} NewTransform-nil-depends-on-history call={i} transformer={k} pooled={built} fresh={fbuilt}"
             else if built != fbuilt then
               s!"SPEC {base} NewTransform-differs-from-fresh call={i} pooled={built} fresh={fbuilt}"
             else if r == ["nocall"] then go st cs' ss' (i+1) anyErr ncalled diff
